@@ -98,7 +98,7 @@ func c12Requests() []*z80.Interrupt {
 		z80.NMIInterrupt(),
 		{Type: z80.InterruptType(7)},
 		{Type: z80.InterruptType(-1), Data: []uint8{0xFF}},
-		z80.IM1Interrupt(),                // empty data
+		z80.IM1Interrupt(),                  // empty data
 		{Type: z80.IMType, Data: []uint8{}}, // empty, non-nil
 		z80.IM2Interrupt(0xFF),
 		z80.IM0Interrupt(0xFF),
@@ -331,7 +331,11 @@ func checkC12(c *Ctx) {
 		extra[x] = true
 	}
 	operandPats := [][]uint8{{0, 0}, {1, 0}, {0x7F, 0x7F}, {0x80, 0x80}, {0xFF, 0xFF}, {0xFE, 0xFF}}
-	type cfgv struct{ mem, io, im, req int; pc, sp uint16; iff1 bool }
+	type cfgv struct {
+		mem, io, im, req int
+		pc, sp           uint16
+		iff1             bool
+	}
 	def := cfgv{0, 4, 1, 0, 0x0100, 0x8000, false}
 	var cfgs []cfgv
 	cfgs = append(cfgs, def)
